@@ -63,8 +63,9 @@ impl AsyncRichIndexerHandle {
                 )
                 .await?;
 
-                let mut last_id = 0;
-                let mut count = 0i32;
+                // A page that continues the transaction the cursor stopped in keeps
+                // counting that transaction's rows from the cursor's offset.
+                let (mut last_id, mut count) = last_cursor.unwrap_or((0, 0i32));
                 let txs = txs
                     .into_iter()
                     .map(|(id, block_number, tx_index, tx_hash, io_type, io_index)| {
